@@ -6,8 +6,11 @@ import (
 	"fmt"
 	"os"
 	"path/filepath"
+	"regexp"
 	"sort"
+	"strconv"
 	"strings"
+	"sync"
 
 	"verif/internal/build"
 	"verif/internal/gen"
@@ -20,6 +23,61 @@ import (
 type Env struct {
 	*harness.Ctx
 	Tree *build.Tree
+
+	logMu sync.Mutex
+	log   map[int64][]string
+}
+
+var logStamp = regexp.MustCompile(`\d{4}/\d{2}/\d{2} \d{2}:\d{2}:\d{2} `)
+
+// N returns the number of runs for the tier (VERIF_RUNS overrides it; used by
+// the determinism self-test).
+func (e *Env) N(q, t int) int64 {
+	if s := os.Getenv("VERIF_RUNS"); s != "" {
+		if n, err := strconv.ParseInt(s, 10, 64); err == nil && n > 0 {
+			return n
+		}
+	}
+	return int64(e.Pick(q, t))
+}
+
+// Log records one event-log entry of a run (only when VERIF_EVENTLOG is set):
+// the determinism self-test diffs these logs between processes, worker counts
+// and GOMAXPROCS values. Scratch paths are normalised.
+func (e *Env) Log(run int64, parts ...any) {
+	if os.Getenv("VERIF_EVENTLOG") == "" {
+		return
+	}
+	js, _ := json.Marshal(parts)
+	line := strings.ReplaceAll(string(js), e.Tree.Root, "@ROOT@")
+	line = strings.ReplaceAll(line, strings.TrimPrefix(e.Tree.Root, "/"), "@ROOT@") // os.Root reports paths relative to "/"
+	line = logStamp.ReplaceAllString(line, "@TIME@ ")                                // bkl -v logs carry wall-clock timestamps
+	e.logMu.Lock()
+	defer e.logMu.Unlock()
+	if e.log == nil {
+		e.log = map[int64][]string{}
+	}
+	e.log[run] = append(e.log[run], harness.Hash(line))
+}
+
+// FlushLog writes the event log, ordered by run.
+func (e *Env) FlushLog() error {
+	path := os.Getenv("VERIF_EVENTLOG")
+	if path == "" {
+		return nil
+	}
+	e.logMu.Lock()
+	defer e.logMu.Unlock()
+	runs := make([]int64, 0, len(e.log))
+	for r := range e.log {
+		runs = append(runs, r)
+	}
+	sort.Slice(runs, func(i, j int) bool { return runs[i] < runs[j] })
+	var b strings.Builder
+	for _, r := range runs {
+		fmt.Fprintf(&b, "%d %s\n", r, strings.Join(e.log[r], " "))
+	}
+	return os.WriteFile(path, []byte(b.String()), 0o644)
 }
 
 const workerAS = 3 << 30 // address-space limit of library workers (bytes)
